@@ -17,7 +17,8 @@ import (
 )
 
 type reader struct {
-	Reads int `json:"reads"`
+	Reads  int `json:"reads"`
+	BufLen int `json:"bufLen"` // 0 = large; small slices make Read return a short-buffer error
 }
 
 type writer struct {
@@ -43,7 +44,7 @@ func gen(r *harn.Rng, tier string) interface{} {
 	sc := &scenario{}
 	nr := r.Range(1, 4)
 	for i := 0; i < nr; i++ {
-		sc.Readers = append(sc.Readers, reader{Reads: r.Range(1, 3)})
+		sc.Readers = append(sc.Readers, reader{Reads: r.Range(1, 3), BufLen: r.Pick(0, 0, 0, 4, 5, 64)})
 	}
 	nw := r.Range(1, 3)
 	for i := 0; i < nw; i++ {
@@ -112,6 +113,16 @@ func run(env *simrt.Env, sci interface{}) {
 			ids = append(ids, id)
 		}
 		buf := make([]byte, 2048)
+		// a passed read deadline makes Read fail with a timeout until the deadline is changed,
+		// also while packets are buffered
+		_ = b.SetReadDeadline(env.Now().Add(-time.Second))
+		for k := 0; k < 2; k++ {
+			if n, err := b.Read(buf); !isTimeout(err) {
+				env.Fail("C08/no-timeout-after-deadline", "Read with a passed deadline and %d packets buffered returned (%d, %v), want a timeout error", len(ids), n, err)
+				return
+			}
+		}
+		_ = b.SetReadDeadline(time.Time{})
 		for _, id := range ids {
 			before := env.Blocks()
 			n, err := b.Read(buf)
@@ -146,10 +157,17 @@ func run(env *simrt.Env, sci interface{}) {
 		i := i
 		readers = append(readers, env.Go(fmt.Sprintf("reader%d", i), func() {
 			buf := make([]byte, 4096)
+			if bl := sc.Readers[i].BufLen; bl > 0 {
+				buf = make([]byte, bl)
+			}
 			for k := 0; k < sc.Readers[i].Reads; k++ {
 				env.Enter("Read")
 				n, err := b.Read(buf)
 				env.Leave()
+				if errors.Is(err, io.ErrShortBuffer) && n >= 4 {
+					err = nil // the packet was consumed; its leading bytes identify it
+					env.Probe("short-read")
+				}
 				if err != nil {
 					switch {
 					case errors.Is(err, io.EOF):
@@ -380,6 +398,11 @@ func shrinkSc(sci interface{}) []interface{} {
 		if sc.Readers[i].Reads > 1 {
 			c := clone()
 			c.Readers[i].Reads--
+			out = append(out, c)
+		}
+		if sc.Readers[i].BufLen != 0 {
+			c := clone()
+			c.Readers[i].BufLen = 0
 			out = append(out, c)
 		}
 	}
